@@ -694,7 +694,7 @@ func (h *H) setup(sc *dbutil.Scratch) (db anystore.DB, err error) {
 	if err != nil {
 		return db, err
 	}
-	h.tree, err = objecttree.BuildObjectTree(st, h.acl)
+	h.tree, err = h.buildTree(st)
 	if err != nil {
 		return db, fmt.Errorf("BuildObjectTree on a root by the owner citing record %d: %w", h.rootAt, err)
 	}
@@ -824,6 +824,9 @@ func run(c Case) (out vstat.Outcome, err error) {
 	if h.local < nrec-1 {
 		h.classes["acl-prefix-only"] = true
 	}
+	if c.CV {
+		h.classes["content-validator-tree"] = true
+	}
 
 	for si, st := range c.Steps {
 		// the local ACL list learns more of the history
@@ -879,6 +882,28 @@ func run(c Case) (out vstat.Outcome, err error) {
 			if cd.Dim == "acl" || cd.Dim == "both" {
 				aclSel = cd.Acl % (nrec + 2)
 			}
+			if cd.Dim == "backdate" {
+				// a writer that lost write permission by the parents' record cites an older
+				// record where it still had it (interpreted modulo the pairs the model offers)
+				type pair struct{ a, i int }
+				var pairs []pair
+				for a := 1; a < c.N; a++ {
+					for i := 0; i < p.lo; i++ {
+						if canWrite(h.w.M.PermAt[a][i]) && !canWrite(h.w.M.PermAt[a][p.lo]) {
+							pairs = append(pairs, pair{a, i})
+						}
+					}
+				}
+				if len(pairs) == 0 {
+					continue
+				}
+				pr := pairs[(cd.Author+cd.Acl)%len(pairs)]
+				author, aclSel = pr.a, pr.i
+				h.classes["backdated-acl-head-by-demoted-writer"] = true
+				if c.CV {
+					h.classes["cv-backdated-acl-head-by-demoted-writer"] = true
+				}
+			}
 			if author == vAuthor && aclSel == vAcl {
 				continue
 			}
@@ -903,6 +928,9 @@ func run(c Case) (out vstat.Outcome, err error) {
 			h.classify(author, X.aclIdx, jx, p.lo)
 			for _, r := range jx.reasons {
 				h.classes["cand-"+r] = true
+				if c.CV {
+					h.classes["cv-cand-"+r] = true
+				}
 			}
 			if jx.ok {
 				h.classes["cand-valid"] = true
@@ -1064,7 +1092,7 @@ func (h *H) reopen() error {
 	if err != nil {
 		return err
 	}
-	t, err := objecttree.BuildObjectTree(st, h.acl)
+	t, err := h.buildTree(st)
 	if err != nil {
 		return fmt.Errorf("BuildObjectTree over the stored tree: %w", err)
 	}
@@ -1143,4 +1171,14 @@ func (h *H) orphanShape(si, oi int, o Orph) error {
 		h.nAccepted++
 	}
 	return nil
+}
+
+// buildTree: the default verifying tree, or the verifying tree with a content validator
+// (how the settings tree is built); the validator accepts everything, so every
+// authorisation rule of the statement must hold unchanged.
+func (h *H) buildTree(st objecttree.Storage) (objecttree.ObjectTree, error) {
+	if h.c.CV {
+		return objecttree.BuildObjectTreeWithContentValidator(func(*objecttree.Change, list.AclList) error { return nil })(st, h.acl)
+	}
+	return objecttree.BuildObjectTree(st, h.acl)
 }
